@@ -136,3 +136,16 @@ claim('C05', 'model_checking',
       'quant 0 (TempoClock.play quantises to the next beat by default, which is documented behaviour).',
       'symbolic co-simulation (RT) / symbolic execution of the NRT scheduler + SMT validity of the closed form',
       'DESIGN.md 3/C05')
+
+claim('C07', 'model_checking',
+      'RT: inside the clock co-simulation (arbitrary jitter) a routine step or the main thread sends a bundle, a nested '
+      'bundle, a message or a message with a completion-bundle blob with symbolic latencies; the datagram captured at '
+      'OscInterface._send is decoded by an independent OSC 1.0 reader, the timetag placeholder is mapped back to its '
+      'term and z3 proves timetag == trunc((logical time + latency) * 2^32) + offset (now + latency outside routines, 1 '
+      'for None/negative), nested bundles relative to the same instant and refused when earlier than their parent; '
+      'osc/elapsed conversion within 2^-32. NRT: the real OscScore for all programs of 1..3 (quick) / 4 sends from a '
+      'routine or from outside with symbolic latencies/yields/tailtime: listed time == t + L, sorted, FIFO among equal '
+      'times (equality forked by the solver), closes with the tail marker, raw == concatenation of the same bundles.',
+      _TB + '; struct inside sc3.base._osclib packs symbolic timetags as placeholders; times below 10^6 s.',
+      'symbolic co-simulation / symbolic execution of the score + independent OSC decoding + SMT validity',
+      'DESIGN.md 3/C07')
